@@ -188,7 +188,9 @@ def parse_response(out, head=False):
     """-> (status, {lower-name: value}, body) ; body de-chunked"""
     i = out.find(b"\r\n\r\n")
     if i < 0:
-        raise MachineryError(f"malformed response {out[:100]!r}")
+        # the server closed the connection without (a complete) response head, e.g. because an exception
+        # escaped while the response was being prepared: an outcome to be judged, not a harness failure
+        return 0, {"x-harness": "no-response", "x-raw": out[:60].decode("latin-1")}, b""
     lines = out[:i].decode("latin-1").split("\r\n")
     status = int(lines[0].split(" ")[1])
     hdrs = {}
@@ -204,8 +206,15 @@ def parse_response(out, head=False):
         while True:
             k = body.find(b"\r\n", j)
             if k < 0:
-                raise MachineryError(f"bad chunked body {body[:80]!r}")
-            n = int(body[j:k].split(b";")[0], 16); j = k + 2
+                # truncated chunked body (connection dropped mid-body): keep what arrived, flag it
+                hdrs["x-harness"] = "truncated-chunked"
+                break
+            try:
+                n = int(body[j:k].split(b";")[0], 16)
+            except ValueError:
+                hdrs["x-harness"] = "bad-chunk-size"
+                break
+            j = k + 2
             if n == 0:
                 break
             dec += body[j:j + n]; j += n + 2
@@ -705,7 +714,7 @@ class Tree:
             "root/link_dir_in": "sub", "root/out_in": "../outside/back_in", "outside/back_in": "../root/sub/b.txt",
             "root/sub/b.txt.br": "../../outside/secret.txt", "root/a.txt.br": "sub/b.txt", "root/up_out": "../rootx",
             "root/slashes": "sub//deep/./c.txt", "root/dotdot_link": "sub/deep/../../../outside/dir",
-            "outside/into_root": "../root",
+            "outside/into_root": "../root", "root/sub/deep/out2": "../../../outside",
         }
         for rel, target in links.items():
             _mk(os.path.join(B, rel), link=target)
@@ -920,7 +929,7 @@ def gen_targets(ctx, tree):
     names = ["a.txt", "sub", "b.txt", "deep", "c.txt", "link_in", "link_out", "dir_out", "abs_out", "abs_in", "loop1", "self", "back", "up",
              "dangling", "chain1", "link_dir_in", "out_in", "secret.txt", "fifo", "emptydir", "z.txt", "sp%20ace.txt", "%2541.txt", "%41.txt",
              "back%5Cslash.txt", "back\\slash.txt", "C:", "...", "caf%C3%A9.txt", "..b", "up_out", "evil.txt", "slashes", "dotdot_link", "dir", "x.txt",
-             "%252e%252e", "q%252Fr", "q%2Fr", "nothing", "into_root", "outside", "root", "rootx", "root.txt", "a.txt.gz", "fifo.gz"]
+             "%252e%252e", "q%252Fr", "q%2Fr", "nothing", "into_root", "outside", "root", "rootx", "out2", "root.txt", "a.txt.gz", "fifo.gz"]
     dots = ["..", ".", "", "%2e%2e", "%2E%2E", ".%2e", "%2e.", "%2e", "..%2f", "%2f", "%2F", "%2f..", "..%5c", "%5c", "%5C..%5C", "\\", "..\\", "..\\..",
             "%252e%252e", "%252F", "%00", "..%00", "a.txt%00", "..;", "....", ". .".replace(" ", "%20"), "%c0%ae%c0%ae", "%uff0e%uff0e", "..%c0%af", "%2e%2e%2f%2e%2e"]
     absf = ["{B}/outside/secret.txt", "{B%2F}%2Foutside%2Fsecret.txt", "/etc/passwd", "%2Fetc%2Fpasswd",
@@ -941,6 +950,11 @@ def gen_targets(ctx, tree):
              "self/../link_out", "loop1/../link_out", "loop1/../dir_out/secret.txt", "self/../dir_out", "self/../dir_out/", "loop1/x/../../abs_out",
              "self/../a.txt", "self/../sub/b.txt", "self/..", "self/../..", "self/../../outside/secret.txt", "loop2/%2e%2e/up_out/evil.txt", "self/../dir_out/secret.txt",
              "self/x", "self/../self", "self/../dangling", "self/../fifo", "sub/up/self/../link_out", "self/../sub/up/link_out", "self/../out_in", "self/../chain1",
+             # directory links crossing the root in intermediate position: files and listings below them, all spellings
+             "dir_out/dir", "dir_out/dir/", "dir_out/dir/x.txt", "dir_out%2Fsecret.txt", "dir_out%2Fdir%2Fx.txt", "dir_out%2fdir", "sub/../dir_out/dir/x.txt",
+             "sub/%2e%2e/dir_out/secret.txt", "dir_out/./dir/../secret.txt", "dir_out/dir/../secret.txt", "dir_out//dir//x.txt", "sub/deep/out2/secret.txt",
+             "sub/deep/out2/dir/x.txt", "sub/deep/out2/dir/", "sub/deep/out2", "sub%2Fdeep%2Fout2%2Fdir%2Fx.txt", "sub/deep/../deep/out2/dir/x.txt",
+             "up_out/", "up_out/evil.txt", "up_out%2Fevil.txt", "abs_in/../dir_out/dir/", "dir_out/into_root/sub/b.txt", "dir_out/into_root/dir_out/secret.txt",
              "sub//b.txt", "sub/./b.txt", "./a.txt", ".//a.txt", "sub/%2e/b.txt", "sub/%2e%2e/a.txt", "a.txt%00", "%00/../a.txt", "x%00/../a.txt", "sub/x%00/../b.txt"]
     for pfx in ("/static", ""):
         for k in known:
